@@ -115,7 +115,7 @@ def run(ctx):
                 'distinguish (not a Quantity, wrong unit, array, zero, negative, NaN; non-Time / array start_time; non-dict meta; alignment / '
                 'polarisation outside their sets incl. unhashable values); attribute assignment after construction; every signal returned '
                 'by a library operation; like(), pickle, cloudpickle, compute / persist / to_dask_array / rechunk. distinct by arguments.')
-    ctx.trusted = ['Coq 8.16.1 kernel (axiom-free)', 'translator T2 (class table from the AST of core.py)',
+    ctx.trusted = ['translator T16 translate/py_contract2coq.py (syntax-tree pins of Signal.__init__ and the validating setters, raise messages ignored)', 'Coq 8.16.1 kernel (axiom-free)', 'translator T2 (class table from the AST of core.py)',
                    'numpy can_cast(.., "safe") towards float64 / complex128 as transcribed in Model/Contract.can_cast_safe (validated here)']
     ctx.assumptions = ['the data argument is an array object (NumPy or Dask); lists and scalars are outside the quantifier of the property']
     built = ctx.build(['Props/C16.vo'])
